@@ -76,6 +76,10 @@ def cases(tier, seed):
             # the default floating-point mode of JAX (32 bit): same programs, tolerance 1e-4
             out.append(dict(kind=kind, opt=opt, n=5, b=2, aux="both", tracked="eq", split=[3], key=seed + 5, path="while_loop", x64=False))
             out.append(dict(kind=kind, opt=opt, n=4, b=2, aux="none", tracked="none", split=[2, 2], key=seed + 5, path="while_loop", x64=False))
+    # 32-bit mode, temporal batch much larger than the spatial one (solve draws through jax.jit, where the cursors are
+    # 32-bit integers)
+    for split in ([3], [2, 2]):
+        out.append(dict(kind="nonstatio", opt="sgd", n=4, b=2, nt=7, bt=6, aux="none", tracked="none", split=split, key=seed + 5, path="while_loop", x64=False))
     out.sort(key=lambda c: (len(c["split"]), sum(c["split"]), c["aux"] != "none", c["tracked"] != "none"))
     return out
 
